@@ -17,7 +17,7 @@ from grid import Grid, Hang
 import allmydata.mutable.publish as publish_mod
 from allmydata.mutable.filenode import MutableFileNode
 from allmydata.mutable.publish import MutableData
-from allmydata.mutable.common import MODE_WRITE
+from allmydata.mutable.common import MODE_WRITE, UncoordinatedWriteError
 from allmydata.interfaces import SDMF_VERSION, MDMF_VERSION
 from allmydata.dirnode import Adder, Deleter, DirectoryNode, normalize
 from allmydata.util import base32
@@ -185,7 +185,7 @@ def gen_calls(rng, kind, n):
     for i in range(n):
         tok = i + 1
         if kind == "file":
-            c = rng.choice(["read", "over", "append", "append", "raise", "noop", "smap", "upload"])
+            c = rng.choice(["read", "over", "append", "append", "raise", "noop", "smap", "upload", "collide", "collide"])
             call = {"api": c, "tok": tok}
         else:
             c = rng.choice(["list", "set_node", "set_node", "set_node_noow", "delete", "delete", "set_children", "mkdir"])
@@ -205,16 +205,20 @@ def issue(g, call, getnode):
         d = node.download_best_version()
     elif api == "over":
         d = node.overwrite(MutableData(bytes([tok, tok])))
-    elif api in ("append", "raise", "noop"):
+    elif api in ("append", "raise", "noop", "collide"):
         def modifier(old, servermap, first_time, api=api, tok=tok):
             if api == "raise":
                 raise ValueError("modifier failed on purpose")
+            if api == "collide" and first_time:
+                # the documented way for a modifier to report a write collision it noticed itself: modify() backs
+                # off, refreshes the servermap and applies the modifier again -- all of it inside the one operation
+                raise UncoordinatedWriteError("collision noticed by the modifier")
             if api == "noop":
                 return old
             if old.endswith(bytes([tok])):
                 return old          # the delta was already applied (retry after UncoordinatedWriteError)
             return old + bytes([tok])
-        modifier.vf = ({"append": "append", "raise": "raise", "noop": "noop"}[api], tok)
+        modifier.vf = ({"append": "append", "raise": "raise", "noop": "noop", "collide": "append"}[api], tok)
         d = node.modify(modifier)
     elif api == "smap":
         d = node.get_servermap(MODE_WRITE)
